@@ -94,7 +94,7 @@ func (c gCase) value(kind int, null bool, v fVal, raw string) any {
 	return ordValue(kind, null, v, c.Table)
 }
 
-var hugeSizes = []uint{0, math.MaxInt64, 1 << 62, 1 << 63, math.MaxUint64, math.MaxInt32 + 1}
+var hugeSizes = []uint{0, math.MaxInt64, 1 << 62, 1 << 63, math.MaxUint64, 1<<63 + 1}
 
 func (c gCase) size() uint {
 	if c.Huge > 0 {
